@@ -344,6 +344,10 @@ class Item:
             s = bo + mo.start()
             if mo.group(1) == "for" and re.match(r"for\s*<", self.m[s:s + 8]):
                 continue
+            # a loop inside a region an earlier R4 / R6 directive replaced wholesale is not a loop of the woven function (and does not
+            # take part in the numbering: the loops after it keep their ordinals whether or not that region is present)
+            if any(e[3] == "rewrite" and e[0] < s < e[1] for e in self.edits):
+                continue
             j, par = bo + mo.end(), 0
             while j < end:
                 ch = self.m[j]
